@@ -49,7 +49,7 @@ Definition vmerge (old new : val) : val := vmerge_fuel (S (val_depth new)) old n
 (* ---- operations at a path inside plain data *)
 
 (* one operation on plain data with the library's merge order for reset / update *)
-Definition plain_nop (v : val) (o : nop) : option (res val * val) :=
+Definition merge_nop (v : val) (o : nop) : option (res val * val) :=
   match v, o with
   | VL l, OL lo =>
       let (r, l') := plain_lop l lo in
@@ -73,7 +73,7 @@ Definition plain_nop (v : val) (o : nop) : option (res val * val) :=
 
 Fixpoint apply_at (p : path) (o : nop) (v : val) : option (res val * val) :=
   match p with
-  | [] => plain_nop v o
+  | [] => merge_nop v o
   | PKey k :: p' =>
       match v with
       | VD d => match alookup k d with
